@@ -10,7 +10,12 @@ EVENTS: list = []
 CONTEXT = {"call": None}
 
 
+_REGISTRY_IDS: set = set()
+
+
 def _log(kind, obj):
+    if id(obj) not in _REGISTRY_IDS:
+        return  # a copy of a registry object (copy.deepcopy, dict(x) ...) being built or edited: not the registry
     st = traceback.extract_stack(limit=8)[:-2]
     frames = [f"{os.path.basename(f.filename)}:{f.lineno}:{f.name}" for f in st[-4:]]
     EVENTS.append({"mutator": kind, "type": type(obj).__name__, "call": CONTEXT["call"], "stack": frames})
@@ -62,6 +67,8 @@ def install(registry_module):
     reg = registry_module._registry
     for name in list(reg):
         reg[name] = wrap(reg[name], memo)
+    for _orig, wrapped in memo.values():
+        _REGISTRY_IDS.add(id(wrapped))
     return len(memo)
 
 
